@@ -23,6 +23,8 @@ VERIF = os.path.dirname(os.path.dirname(os.path.abspath(__file__)))
 REPO = os.environ.get("VERIF_REPO", "/repo")
 WORK = os.path.join(VERIF, ".work")
 LEAN = os.path.join(VERIF, "lean")
+# harness binaries are per checked tree, so a run against a scratch copy cannot hand its binary to a run against /repo
+BIN = os.path.join(WORK, "bin" if REPO == "/repo" else "bin-" + REPO.strip("/").replace("/", "_"))
 HARNESS = os.path.join(VERIF, "harness", "go")
 # Runs against a scratch copy (VERIF_REPO=/tmp/...) must not overwrite the evidence of /repo.
 EVID = os.path.join(VERIF, "evidence") if REPO == "/repo" else os.path.join(WORK, "evidence-alt", REPO.strip("/").replace("/", "_"))
@@ -96,10 +98,10 @@ def build_overlay():
 def build_harness(bins=("verifrun",)):
     """go build of cmd/<bin> inside /repo (overlay). Returns (ok, output)."""
     ov = build_overlay()
-    os.makedirs(os.path.join(WORK, "bin"), exist_ok=True)
+    os.makedirs(BIN, exist_ok=True)
     ok, txt = True, ""
     for b in bins:
-        out = os.path.join(WORK, "bin", b)
+        out = os.path.join(BIN, b)
         try:
             os.remove(out)  # never run a stale binary
         except OSError:
@@ -254,7 +256,7 @@ def run_workload(name, seed, n, wide=False, replay=None, extra_args=(), timeout=
     os.makedirs(os.path.join(WORK, "runs"), exist_ok=True)
     base = os.path.join(WORK, "runs", "%s%s-%d-%d" % (name, tag, seed, os.getpid()))
     cases_path, verd_path = base + ".cases.jsonl", base + ".verdicts.jsonl"
-    cmd = [os.path.join(WORK, "bin", hbin), name, "-seed", str(seed), "-n", str(n)]
+    cmd = [os.path.join(BIN, hbin), name, "-seed", str(seed), "-n", str(n)]
     if wide:
         cmd.append("-wide")
     if replay:
